@@ -76,4 +76,8 @@ def logAlter (stream : Bool) (layer : Nat) : Interceptor :=
 def logDrop (stream : Bool) (layer : Nat) : Interceptor :=
   fun cc c inv => let (es, r) := inv { c with opts := 0 }; (.int stream layer cc c :: es, r)
 
+/-- log, then forward under another method name (e.g. an interceptor that routes to a versioned method) -/
+def logRename (stream : Bool) (layer : Nat) : Interceptor :=
+  fun cc c inv => let (es, r) := inv { c with method := c.method + 1 }; (.int stream layer cc c :: es, r)
+
 end InterceptClient
